@@ -84,7 +84,16 @@ def run(ctx):
         progs = [[{"cls": "lin", "name": "SET", "args": [tok("key", "k%d" % c), tok("str", "v%d%d" % (c, i % 7))]},
                   {"cls": "lin", "name": "GET", "args": [tok("key", "k%d" % c)]}] for c in range(2)]
         first.append({"handler": "example" if i % 8 else "ref", "gate": False, "nconns": 2, "setup": [], "programs": progs})
-    scenarios = forced + ex + free + first
+    # the example store's own primitives racing on one key (free-running, fresh servers): one client writes and reads back
+    # its own values while another only changes the key's life time (EXPIRE never changes a value) or lists keys
+    racing = []
+    for i in range(12000 if thorough else 4000):
+        w = [x for j in range(3) for x in ({"cls": "lin", "name": "SET", "args": [tok("key", "ka"), tok("str", "v0%d" % j)]},
+                                           {"cls": "lin", "name": "GET", "args": [tok("key", "ka")]})]
+        o = [{"cls": "lin", "name": "EXPIRE", "args": [tok("key", "ka"), tok("int", n=1000)]} if (i + j) % 3 else
+             {"cls": "lin", "name": "KEYS", "args": [tok("str", "s:star")]} for j in range(5)]
+        racing.append({"handler": "example", "gate": False, "nconns": 2, "setup": [], "programs": [w, o]})
+    scenarios = forced + ex + free + first + racing
     if ctx.replay:
         scenarios = [json.load(open(ctx.replay))["scenario"]]
     ctx.stage("generate")
@@ -143,7 +152,7 @@ def run(ctx):
                 "of each recorded history against RedisModel (silent Linearize steps). non-trivial = histories with at least two overlapping "
                 "commands",
         "samples": samples or [{"note": "none"}], "exhaustive": True,
-        "forced_schedules": len(forced), "example_store_schedules": len(ex), "free_histories": len(free),
+        "forced_schedules": len(forced), "example_store_schedules": len(ex), "free_histories": len(free), "example_store_racing_histories": len(racing),
         "not_linearizable": len(rejected), "explained_by_known_finding": len(known), "unrealisable_schedule_steps": unreal,
     }, assumptions=["the response time of an operation is when the server wrote the reply (not later than the client's receipt), which only narrows "
                     "intervals on the safe side", "primitives of the reference store are serialised by its mutex; the example store is only "
